@@ -141,10 +141,17 @@ def sHttps : Bytes := ofString "https://"
 
 def stripPrefix? (pre s : Bytes) : Option Bytes := if pre.isPrefixOf s then some (s.drop pre.length) else none
 
-/-- authority of an absolute-form target (no userinfo), else none -/
+/-- what follows the last '@' (the host[:port] of an authority with userinfo) -/
+def afterLastAt : Bytes → Bytes → Bytes
+  | [], acc => acc
+  | c :: rest, acc => if c = 64 then afterLastAt rest rest else afterLastAt rest acc
+
+/-- host[:port] of an absolute-form target (userinfo dropped), else none -/
 def authority? (target : Bytes) : Option Bytes :=
   match (stripPrefix? sHttp target).orElse (fun _ => stripPrefix? sHttps target) with
-  | some rest => some (rest.takeWhile (fun c => c != 47 && c != 63 && c != 35))   -- up to '/', '?', '#'
+  | some rest =>
+    let auth := rest.takeWhile (fun c => c != 47 && c != 63 && c != 35)   -- up to '/', '?', '#'
+    some (afterLastAt auth auth)
   | none => none
 
 def firstValue (fields : Hdr) (k : Bytes) : Bytes := ((Hdr.values fields k).head?).getD []
